@@ -12,13 +12,6 @@ PID = 'C12'
 SHORT = 'validate'
 
 ENV = '''
-#[derive(Debug, Clone, Copy, PartialEq, Eq, Structural)]
-pub struct StatusCode { pub bits: u32 }
-impl StatusCode {
-    pub const BadSequenceNumberInvalid: StatusCode = StatusCode { bits: 0x8088_0000 };
-    pub const BadSecureChannelIdInvalid: StatusCode = StatusCode { bits: 0x8022_0000 };
-    pub const BadSecurityChecksFailed: StatusCode = StatusCode { bits: 0x8013_0000 };
-}
 pub struct SecureChannel { pub secure_channel_id: u32 }
 impl SecureChannel {
     pub fn secure_channel_id(&self) -> (r: u32) ensures r == self.secure_channel_id { self.secure_channel_id }
@@ -108,6 +101,7 @@ def build(manifest):
     mc = Src('core/comms/message_chunk.rs', manifest)
     sh = Src('core/comms/security_header.rs', manifest)
     a.add(norm_vis('\n'.join([mc.enum('MessageChunkType'), mc.enum('MessageIsFinalType'), mc.struct('MessageChunkHeader'), sh.struct('SequenceHeader')])), 'types', 'env')
+    a.add(status_code_struct(manifest), 'status codes', 'env')      # every status code of the real file (D14)
     a.add(ENV, 'env', 'env')
     a.add('pub struct Chunker;\nimpl Chunker {')
     a.add(f, 'validate_chunks', 'fn')
